@@ -127,3 +127,14 @@ C("C12", "model_checking",
   "field by field, StopIteration, count monotone and equal to the stored totals at file ends). Every access path must return, event for event, "
   "what one sequential single-chunk pass returns (which is itself checked against the reference log).",
   "zero-event files outside the alphabet; differential baseline = sequential pass validated against C11's reference log", "DESIGN.md §4 C12")
+C("C01", "exploration",
+  "exhaustive finite lattice of geometries x tracers against an independent RK4 integration of the eikonal ray equations launched in the reported direction",
+  "Ice in {Antarctic; thorough also Greenland and two custom exponential profiles} x all ordered pairs of 11 depths either side of z_uniform x "
+  "horizontal separations {0, 0.01, 0.5, 5, 50, 200, 600, 1500, 3000} + {0.9, 0.99, 0.999} x the tracer's own direct and indirect reach. "
+  "Specialized tracer on all points, Basic tracer (dz 1, 4; thorough also 0.25) on legs spanning >= 20 dz. Each reported solution is "
+  "launched from the source in its reported emitted direction and marched with RK4 (surface reflection with split steps): the flagged phase "
+  "(before / after turning or reflecting) must reach the receiver, with arc length == path_length, integral n ds/c == tof, tangent == "
+  "received direction, n sin(theta) equal at both ends, azimuth towards the receiver, count in {0,2}, exists == non-empty, second solution "
+  "never direct. Tolerances per conditioning class (DESIGN C01); open findings K4, K5, K6, K10 are identified by region tags.",
+  "RK4 marcher (4000/6000 steps) is the trusted reference; Basic tracer tolerances are 3x calibrated lattice-wide maxima (it is a coarse "
+  "integrator); a defect below the stated tolerance is not detected", "DESIGN.md §4 C01")
